@@ -450,12 +450,24 @@ pub fn patch(
             let base_grid_region = base_grid.regions_and_shifts()[idx].0;
             let ref_grid_region = patch_ref_grid.regions_and_shifts()[idx].0;
 
-            let target_patch_region = base_grid_region.intersection(Region {
-                left: target.x,
-                top: target.y,
-                width: patch_ref.width,
-                height: patch_ref.height,
-            });
+            // The alpha channel may cover a different region than this channel (e.g. when it is
+            // upsampled separately); blend only where both are available.
+            let base_alpha_region = (blending_info.mode.use_alpha()
+                && blending_info.alpha_channel as usize + color_channels != idx)
+                .then(|| {
+                    base_grid.regions_and_shifts()
+                        [blending_info.alpha_channel as usize + color_channels]
+                        .0
+                });
+
+            let target_patch_region = base_grid_region
+                .intersection(base_alpha_region.unwrap_or(base_grid_region))
+                .intersection(Region {
+                    left: target.x,
+                    top: target.y,
+                    width: patch_ref.width,
+                    height: patch_ref.height,
+                });
             let width = target_patch_region.width;
             let height = target_patch_region.height;
 
@@ -477,7 +489,10 @@ pub fn patch(
             let base_left = target_patch_region.left.abs_diff(base_grid_region.left) as usize;
             let base_top = target_patch_region.top.abs_diff(base_grid_region.top) as usize;
 
-            let base_topleft = (base_left, base_top);
+            if width == 0 || height == 0 {
+                continue;
+            }
+
             let new_topleft = (patch_left, patch_top);
 
             let bit_depth = if let Some(ec_idx) = idx.checked_sub(color_channels) {
@@ -516,7 +531,13 @@ pub fn patch(
                         l[alpha_idx + color_channels].convert_to_float_modular(alpha_bit_depth)?;
                         (&mut r[0], &l[alpha_idx + color_channels])
                     };
-                    base_alpha = Some(alpha.as_float().unwrap().as_subgrid());
+                    let alpha_region = base_alpha_region.unwrap();
+                    let alpha_left = target_patch_region.left.abs_diff(alpha_region.left) as usize;
+                    let alpha_top = target_patch_region.top.abs_diff(alpha_region.top) as usize;
+                    base_alpha = Some(alpha.as_float().unwrap().as_subgrid().subgrid(
+                        alpha_left..(alpha_left + width),
+                        alpha_top..(alpha_top + height),
+                    ));
                     new_alpha = Some(
                         patch_ref_grid.buffer()[alpha_idx + color_channels]
                             .as_float()
@@ -533,7 +554,8 @@ pub fn patch(
                 &mut base_grid[idx]
             }
             .convert_to_float_modular(bit_depth)?
-            .as_subgrid_mut();
+            .as_subgrid_mut()
+            .subgrid(base_left..(base_left + width), base_top..(base_top + height));
 
             let Some(mut blend_params) = BlendParams::from_patch_blending_info(
                 idx,
@@ -545,7 +567,8 @@ pub fn patch(
             ) else {
                 continue;
             };
-            blend_params.base_topleft = base_topleft;
+            // `base_grid` and `base_alpha` are already cut to the patch rectangle.
+            blend_params.base_topleft = (0, 0);
             blend_params.new_topleft = new_topleft;
             blend_params.width = width;
             blend_params.height = height;
